@@ -538,7 +538,7 @@ def check_tree(c):
 # ================================================================================================ expression classes
 CLASSES = ["MassAction", "Arrhenius", "Eyring", "EyringHS", "Radiolytic", "Radiolytic2", "TPoly", "RTPoly", "Log10TPoly", "ShiftedTPoly",
            "ShiftedLog10TPoly", "ShiftedRTPoly", "create_Poly", "TPiecewise", "create_Piecewise", "RampedTemp", "SinTemp", "GibbsEqConst",
-           "MassActionEq", "Log10", "Exp"]
+           "MassActionEq", "Log10", "Exp", "Defaults"]
 
 
 def gen_cls(seed, i):
@@ -863,6 +863,37 @@ def check_cls(c):
                 expr = Exp(inner)
                 want = math.exp(_poly_val(co, T))
                 exps = _poly_val(co, T)
+        elif cls == "Defaults":
+            # a user-defined Expr with two trailing defaults: f = a*b + c, defaults b = 17, c = 23 (aligned from the end)
+            class LinDef(Expr):
+                argument_names = ("a", "b", "c")
+                argument_defaults = (17.0, 23.0)
+
+                def __call__(self, variables, backend=math, **kw):
+                    a_, b_, c_ = self.all_args(variables, backend=backend, **kw)
+                    return a_ * b_ + c_
+
+            a_, b_, c_ = 1 + r[0], 2 + r[1], 3 + r[2]
+            ao = 5 + r[3]
+            wh = c["which"]
+            if variant == "fk":
+                expr, a_, b_, c_ = LinDef.fk("a_named"), ao, 17.0, 23.0
+                variables["a_named"] = V("a_named", ao)
+            elif variant == "override":
+                expr = LinDef([a_, b_][: 1 + wh % 2], ["a_named", "b_named"][: 1 + wh // 2])
+                b_ = b_ if wh % 2 else 17.0
+                c_ = 23.0
+                if wh // 2:
+                    b_ = 7 + r[4]
+                    variables["b_named"] = V("b_named", b_)
+                else:
+                    a_ = ao
+                    variables["a_named"] = V("a_named", ao)
+            else:
+                given = [a_, b_, c_][: 1 + wh % 3]
+                expr = LinDef(given)
+                b_, c_ = (given + [17.0, 23.0][len(given) - 1:])[1:3] if len(given) < 3 else (b_, c_)
+            want = a_ * b_ + c_
         else:
             raise AssertionError(cls)
         if expr is not None:
@@ -1000,7 +1031,7 @@ _GEN = {"param_sets": gen_param, "param_in_reaction": gen_prx,
 _CHECK = {"param_sets": check_param, "param_in_reaction": check_prx, "param_in_reaction_units_default_backend": check_prx,
           "expr_classes": check_cls, "log10_symbolic": check_log10, "expr_trees": check_tree, "massaction_algebra": check_ma}
 _N = {"param_sets": (1500, 60000), "param_in_reaction": (1500, 60000), "param_in_reaction_units_default_backend": (300, 6000),
-      "expr_classes": (2100, 84000), "log10_symbolic": (60, 600), "expr_trees": (2400, 100000), "massaction_algebra": (1100, 44000)}
+      "expr_classes": (2200, 88000), "log10_symbolic": (60, 600), "expr_trees": (2400, 100000), "massaction_algebra": (1100, 44000)}
 _RULE = {
     "param_sets": ("ArrheniusParam(A, Ea) with A 1e-3..1e16, Ea -20..300 kJ/mol (also 0); EyringParam(dH 0..300 kJ/mol, dS -200..200 J/K/mol); "
                    "T 200..2000 K; float mode with backend None/math/numpy/sympy (plus T symbolic under sympy, then substituted) and "
@@ -1012,7 +1043,7 @@ _RULE = {
                           "floats with math/numpy, sympy symbols then substituted, quantities (M or mol/m3, energies J/kJ/cal) with the "
                           "unit-aware chempy.units.Backend(); Eyring: standard state 1 M, magnitudes compared", "see rule"),
     "param_in_reaction_units_default_backend": ("as param_in_reaction with quantities but with the default backend of Reaction.rate (math)", "see rule"),
-    "expr_classes": ("21 expression classes/factories in rotation (MassAction, Arrhenius, Eyring, EyringHS, Radiolytic, mk_Radiolytic(alpha,beta), "
+    "expr_classes": ("22 expression classes/factories in rotation (a user-defined Expr with two trailing argument defaults, MassAction, Arrhenius, Eyring, EyringHS, Radiolytic, mk_Radiolytic(alpha,beta), "
                      "TPoly, RTPoly, Log10TPoly, ShiftedTPoly, ShiftedLog10TPoly, ShiftedRTPoly, create_Poly(x, reciprocal, shift), TPiecewise, "
                      "create_Piecewise, RampedTemp, SinTemp, GibbsEqConst, MassActionEq(+equilibrium_equation), Log10, Exp) at random arguments; "
                      "modes math, numpy, quantities in mixed units (K/kK, s/min, M / mol m-3, J/kJ/cal, ...) with Backend(), sympy symbols "
